@@ -428,6 +428,12 @@ def report(ctx, recs, mapping, select=lambda r: True):
         rule = mapping[rs[0].rule]
         bad = [r for r in rs if not r.ok]
         modes = sorted({r.mode for r in rs})
+        NOT_UNDERSTOOD = ('not a polynomial', 'do not normalise', 'does not normalise', 'non-polynomial slice')
+        for r in bad:
+            if any(k in r.msg for k in NOT_UNDERSTOOD):
+                # a quantity the evaluator could not express: the construct was not understood, which is not evidence
+                # of a wrong address
+                r.extra['unknown'] = True
         if bad and all(r.extra.get('unknown') for r in bad):
             # the analysis could not follow the construct: never a verdict
             unknown.append(bad[0])
